@@ -435,6 +435,9 @@ func (u *Universe) structSort(named *types.Named, st *types.Struct) Sort {
 func (u *Universe) StructInfo(s Sort) *structInfo { return u.structs[string(s)] }
 
 func (u *Universe) Zero(s Sort) Term {
+	if s == "" {
+		panic("Zero of empty sort")
+	}
 	switch s {
 	case SInt:
 		return IntLit(0)
